@@ -69,7 +69,7 @@ def default_execute(scn, ctx, timeout=10.0, digests=False):
     obs = {}
     for run in scn["runs"]:
         argv = [subst(a, w) for a in run["argv"]]
-        r = lib.run_fselect(argv, cwd, w.home, tz=env.get("tz", "UTC"), fake_epoch=env.get("fake_epoch"),
+        r = lib.run_fselect(argv, cwd, w.home, tz=env.get("tz", "UTC"), fake_epoch=(env.get("fake_epoch") if (env.get("fake_epoch") or -1) >= 0 else None),
                             fail_after=run.get("fail_after"), uid=env.get("uid"),
                             timeout=run.get("timeout", timeout))
         o = {"status": r["status"], "timed_out": r["timed_out"], "panic": r["panic"],
